@@ -1,6 +1,6 @@
 """PIPE / STATE / notify rules: the per-action pipeline on the reducer thread."""
 from mirq.prov import subterms, term_str, strip_wrap, strip_clone, mk_phi
-from mirq.interp import Interp, unclone_all
+from mirq.interp import Interp, unclone_all, unwrap_all
 from mirq.report import short, AnchorMissing
 from mirq.program import Site
 
@@ -236,6 +236,9 @@ def pi3_full_forward_iteration(ctx, rep, which=("REDUCE", "HOOK:before_reduce", 
             if src is not None:
                 fld = field_for.get(lab, A.f_middlewares)
                 base = strip_wrap(src)
+                if base[0] == "call":
+                    # a crate-local helper that hands back the collection (e.g. a snapshot accessor)
+                    base = strip_wrap(unclone_all(unwrap_all(Interp(ctx.prog).expand(src))))
                 okk = base[0] == "field" and base[2] == fld
                 rep.check(okk, R, "collection-read-in-pass:" + key, s.where,
                           "collection is the store's `%s` read under its lock inside the pass (%s)" % (fld, term_str(src)),
